@@ -14,7 +14,7 @@
 import ast
 from typing import List, Tuple, get_args
 
-from sympy import Symbol
+from sympy import Symbol, sympify
 from sympy.logic import ITE, And, Not, Or, Xor, false, true
 
 from ..boolquant import QuantumBooleanGate
@@ -381,22 +381,25 @@ def translate_expression(expr, env: Env) -> TExp:  # noqa: C901
             if len(args) != len(def_f[1]):
                 raise TypeErrorException(args, def_f[1])
 
+            def _flat(v):
+                if isinstance(v, List):
+                    return [b for x in v for b in _flat(x)]
+                return [v]
+
+            # Pair the bits of each formal with the bits of its actual, by position
             subs = {}
             for a, fa in zip(args, def_f[1]):
-                if isinstance(a[1], List):
-                    for i in range(len(a[1])):  # type: ignore
-                        index = ".".join(a[1][i].name.split(".")[1:])  # type: ignore
-                        if index == "":
-                            index = f"{i}"
+                a_bits = _flat(a[1])
+                if len(a_bits) != len(fa.bitvec):
+                    raise TypeErrorException(a[0], fa.ttype)
 
-                        subs[f"{fa.name}.{index}"] = a[1][i]  # type: ignore
+                for fb, ab in zip(fa.bitvec, a_bits):
+                    subs[Symbol(fb)] = sympify(ab)
 
-                else:
-                    subs[fa.name] = a[1]
-
+            # xreplace is simultaneous: an actual may mention a symbol named like a formal
             n_exps = []
             for s, e in def_f[3]:
-                n_exps.append((s, e.subs(subs, simultaneus=True)))
+                n_exps.append((s, e.xreplace(subs)))
 
             _ret = list(map(lambda se: se[1], n_exps))
 
